@@ -361,6 +361,36 @@ def run_job(spec):
                     # a harness with several obligations may judge each one separately
                     why = H.oracle_ob(pname, skel, cx2, real2) if hasattr(H, "oracle_ob") else H.oracle(skel, cx2, real2)
                     if why is None:
+                        # the symbolic model diverges from the real code on this path (e.g. symbolic bytes reached compiled code).  As for a
+                        # path the model cannot follow, greedy members of the path (every integer input pushed up / down as far as the
+                        # path allows) are run on the real code; a reproduced violation is reported, otherwise the path stays inconclusive.
+                        viol = None
+                        try:
+                            for side in ("hi", "lo"):
+                                s.push()
+                                pushed = 1
+                                for nm in [nm for nm in V.names if V.kinds[nm] == "int" and getattr(V.vars[nm], side) is not None][:64]:
+                                    s.push(); pushed += 1
+                                    s.add(V.vars[nm].t == getattr(V.vars[nm], side))
+                                    if s.check() != z3.sat:
+                                        s.pop(); pushed -= 1
+                                mem = V.concrete(s.model()) if s.check() == z3.sat else None
+                                for _ in range(pushed):
+                                    s.pop()
+                                if mem is None:
+                                    continue
+                                real_m = plain_call(spec["module"], spec["harness"], skel, mem)
+                                why_m = H.oracle_ob(pname, skel, mem, real_m) if hasattr(H, "oracle_ob") else H.oracle(skel, mem, real_m)
+                                if why_m is not None and not any(region_eval(k["region"], mem, skel) is True for k in known):
+                                    viol = dict(obligation=pname, inputs=mem, output=jsonable(real_m),
+                                                why=("[real run of a member of a path on which the symbolic model diverges] " + why_m)[:1000])
+                                    break
+                        except Exception:
+                            viol = None
+                        if viol is not None:
+                            res["violations"].append(viol)
+                            ok = False
+                            break
                         res["inconclusive"].append(
                             f"{pname}: counterexample does not reproduce (encoding/oracle mismatch): inputs={cx2} out={jsonable(real2)!r}"[:600])
                         ok = None
